@@ -87,6 +87,7 @@
 #include <upipe-filters/upipe_filter_blend.h>
 #include <upipe-filters/upipe_zoneplate.h>
 #include <upipe-filters/upipe_zoneplate_source.h>
+#include <upipe-filters/upipe_filter_format.h>
 #include <upipe-modules/upipe_blank_source.h>
 #include <upipe-ts/upipe_ts_align.h>
 #include <upipe-ts/upipe_ts_metadata_generator.h>
@@ -228,6 +229,10 @@ static const struct ptype types[] = {
     /* other libraries: v210 encoder (planar 4:2:2 in), HLS segment buffer (pack10bit / unpack10bit of upipe-hbrmt
      * were tried and left out: their contract is about the alignment and spare room of the buffers they are given) */
     { "v210enc", upipe_v210enc_mgr_alloc, F_TYPED }, { "hls_buffer", upipe_hls_buffer_mgr_alloc, F_ORDER | F_SAME_PAYLOAD },
+    /* a bin that builds its inner chain from the answer to a flow format request and holds its input meanwhile: without
+     * swscale / swresample managers (pictures only: a sound conversion needs swresample) the chain is setflowdef, or
+     * filter_blend + setflowdef when the answer is progressive and the input is not */
+    { "filter_format", upipe_ffmt_mgr_alloc, F_TYPED | F_FLOW_ALLOC | F_ORDER },
 };
 #define NTYPES (int)(sizeof(types) / sizeof(types[0]))
 
@@ -884,6 +889,11 @@ static bool faults_allowed(void)
  * allocations fail for them in control commands only */
 static bool faults_here(const struct sim_op *op)
 {
+    /* (filter_format that could not duplicate a flow definition throws fatal and keeps its flow format request
+     * registered without a definition to go with it: the next answer asserts in uref_dup(NULL). What a pipe does
+     * after its own fatal event is not in the properties; observation in DESIGN 7.4) */
+    if (!strcmp(types[type].name, "filter_format") && op->code == OP_FLOW_DEF)
+        return false;
     return faults_allowed() && !((types[type].flags & F_TYPED) && op->code == OP_INPUT);
 }
 /* single-fault sweep: the same fault-free history is executed again and again,
@@ -1809,12 +1819,15 @@ static bool run_once(void)
         static const struct { const char *name; int which; } hints[] = {
             { "audio_blank", 1 }, { "audio_copy", 1 }, { "block_to_sound", 2 }, { "video_blank", 0 }, { "row_split", 0 },
             { "audio_bar", 0 }, { "audio_graph", 0 }, { "void_source", 4 }, { "zoneplate", 0 }, { "blank_source", 0 },
-            { "zoneplate_source", 0 }, { NULL, 0 } };
+            { "zoneplate_source", 0 }, { "filter_format", 0 }, { NULL, 0 } };
         uint64_t which = (uint64_t)plan->cfg[CFG_ALLOCDEF];
         if ((which >> 4) & 3)
             for (int i = 0; hints[i].name != NULL; i++)
                 if (!strcmp(hints[i].name, types[type].name))
                     which = (which & ~(uint64_t)7) | (uint64_t)hints[i].which;
+        /* (filter_format asked for sound allocates a swresample pipe from a manager the application never gave it) */
+        if (!strcmp(types[type].name, "filter_format"))
+            which = (which & ~(uint64_t)7) | (((which >> 8) & 1) ? 7 : 0);
         alloc_which = which & 7;
         /* (allocated with a picture definition without its size: audio_bar /
          * audio_graph keep what they are given while they wait for a downstream
@@ -1941,6 +1954,11 @@ static void run(const char *pr, const struct sim_plan *pl)
 {
     plan = pl;
     type = (int)((uint64_t)plan->cfg[CFG_TYPE] % NTYPES);
+    /* (development only, never set by tools/check.py: every run drives one type) */
+    const char *only = getenv("ESWEEP_ONLY");
+    for (int i = 0; only != NULL && i < NTYPES; i++)
+        if (!strcmp(types[i].name, only))
+            type = i;
     twin_run = plan->cfg[CFG_PROP] == 20 && ((uint64_t)plan->cfg[CFG_TWIN] & 1);
     mode = MODE_PRIMARY;
     memset(rejected, 0, sizeof(rejected));
